@@ -245,6 +245,8 @@ pub enum StoreKind {
     StandoffNoIncludeConfig,
     /// as Standoff, then written as STAM CBOR, loaded from that file and given the JSON file name again (conversion route)
     StandoffViaCbor,
+    /// built through the API with a resource that is to live in a stand-off *.json file and has not been written yet (changed = true)
+    ApiJsonResourceUnsaved,
 }
 
 fn base_doc_files(dir: &str) -> String {
@@ -284,6 +286,16 @@ pub fn build_store(kind: StoreKind, dir: &str) -> AnnotationStore {
                     .with_data_with_id("s1", "k0", 1isize, "E0"),
             )
             .unwrap();
+            s
+        }
+        StoreKind::ApiJsonResourceUnsaved => {
+            let _ = std::fs::remove_dir_all(dir);
+            std::fs::create_dir_all(dir).expect("workdir");
+            let mut s = AnnotationStore::new(Config::default().with_workdir(dir.to_string()));
+            s.set_filename(&format!("{}/root.store.stam.json", dir));
+            s.add_resource(TextResourceBuilder::new().with_id("r0").with_text("a\u{e9} \u{1d11e}d").with_filename("r0.json")).expect("resource with filename");
+            s.annotate(AnnotationBuilder::new().with_id("a0").with_target(SelectorBuilder::textselector("r0", Offset::simple(0, 3))).with_data_with_id("s0", "k0", "v", "D0")).unwrap();
+            s.annotate(AnnotationBuilder::new().with_id("a1").with_target(SelectorBuilder::textselector("r0", Offset::new(Cursor::BeginAligned(3), Cursor::EndAligned(0)))).with_data_with_id("s1", "k0", 1isize, "E0")).unwrap();
             s
         }
         StoreKind::StandoffViaCbor => {
@@ -559,8 +571,10 @@ pub fn run(rep: &Reporter) -> Coverage {
     let bound = rep.tier.pick(2, 3);
     let cap: u64 = rep.tier.pick(20_000, 400_000);
     let mut jobs: Vec<(StoreKind, Vec<Body>)> = Vec::new();
-    for kind in [StoreKind::Inline, StoreKind::Standoff, StoreKind::StandoffChanged, StoreKind::StandoffNoIncludeConfig, StoreKind::StandoffViaCbor] {
-        for bodies in combos(rep.tier) {
+    for kind in [StoreKind::Inline, StoreKind::Standoff, StoreKind::StandoffChanged, StoreKind::StandoffNoIncludeConfig, StoreKind::StandoffViaCbor, StoreKind::ApiJsonResourceUnsaved] {
+        // triples of readers (thorough) only on the three basic stores; the later store kinds get every pair
+        let basic = matches!(kind, StoreKind::Inline | StoreKind::Standoff | StoreKind::StandoffChanged);
+        for bodies in combos(if basic { rep.tier } else { Tier::Quick }) {
             jobs.push((kind, bodies));
         }
     }
@@ -608,7 +622,7 @@ pub fn run(rep: &Reporter) -> Coverage {
     cov.evaluations = total;
     cov.traces_validated = total;
     cov.distinct_nontrivial = per.iter().filter(|p| p["schedules"].as_u64().unwrap_or(0) > 1).count() as u64;
-    cov.rule = format!("for every store kind (inline; stand-off members loaded from files; stand-off with a changed dataset; stand-off loaded with a use_include(false) configuration; stand-off written as CBOR and loaded back) and every multiset of {} reader bodies (store / dataset / second dataset / resource serialisation to a string, query + parallel iteration; in pairs also a store serialisation with a configuration derived from that of the store): all schedules of the real code with at most {} preemptions (CHESS-style: switching away from a still-runnable thread costs 1), threads gated at the H2 yield points before every lock operation on the shared serialisation mode and changed flags; oracle: each thread's return value equals its value when run alone on a fresh copy of the store, and a store serialisation afterwards equals the sequential one; states = distinct outcome vectors, transitions = schedules executed; non-trivial = thread sets with more than one schedule", rep.tier.pick("2", "2 and 3"), bound);
+    cov.rule = format!("for every store kind (inline; stand-off members loaded from files; stand-off with a changed dataset; stand-off loaded with a use_include(false) configuration; stand-off written as CBOR and loaded back; built through the API with an unsaved stand-off *.json resource) and every multiset of {} reader bodies (store / dataset / second dataset / resource serialisation to a string, query + parallel iteration; in pairs also a store serialisation with a configuration derived from that of the store): all schedules of the real code with at most {} preemptions (CHESS-style: switching away from a still-runnable thread costs 1; triples of readers only on the inline / stand-off / changed stand-off stores), threads gated at the H2 yield points before every lock operation on the shared serialisation mode and changed flags; oracle: each thread's return value equals its value when run alone on a fresh copy of the store, and a store serialisation afterwards equals the sequential one; states = distinct outcome vectors, transitions = schedules executed; non-trivial = thread sets with more than one schedule", rep.tier.pick("2", "2 and 3"), bound);
     cov.samples = samples;
     cov.exhaustive = !capped_any;
     cov.extra.insert("preemption_bound".into(), json!(bound));
@@ -630,6 +644,7 @@ pub fn replay(rep: &Reporter, case: &Value) {
         "Standoff" => StoreKind::Standoff,
         "StandoffNoIncludeConfig" => StoreKind::StandoffNoIncludeConfig,
         "StandoffViaCbor" => StoreKind::StandoffViaCbor,
+        "ApiJsonResourceUnsaved" => StoreKind::ApiJsonResourceUnsaved,
         _ => StoreKind::StandoffChanged,
     };
     let all = [Body::StoreJson, Body::DatasetJson, Body::ResourceJson, Body::QueryParallel, Body::Dataset2Json, Body::StoreJsonDerivedConfig];
